@@ -280,3 +280,66 @@ func vc13_e2e_md() {
 }
 
 func vh_c13_e2e_md_q() { vc13_e2e_md() }
+
+// C12: chains of panics. A panic raised while another is in flight aborts it;
+// recover stops the current one and marks it; the *PanicError that Run
+// returns lists exactly the panics still active, innermost first, with their
+// recovered flags. Expected results are Go's semantics for each template.
+func vc12_e2e_chain() {
+	s, t, u := vsym_string(1), vsym_string(1), vsym_string(1)
+	var trace []byte
+	decls := native.Declarations{
+		"s": &s, "t": &t, "u": &u,
+		"mark": func(c int) { trace = append(trace, byte('0'+c)) },
+	}
+	type link struct {
+		msg       *string
+		recovered bool
+	}
+	cases := []struct {
+		src   string
+		chain []link // nil: Run returns nil
+		out   string
+		trace string
+	}{
+		// recover in a deferred function that has itself deferred a call
+		{"{% defer func() { defer mark(1); recover() }() %}a{% panic(s) %}b", nil, "a", "1"},
+		// the second panic aborts the first, the recover stops the second
+		{"{% defer func() { recover(); mark(2) }() %}{% defer func() { panic(t) }() %}a{% panic(s) %}b", nil, "a", "2"},
+		// two unrecovered panics
+		{"{% defer func() { panic(t) }() %}a{% panic(s) %}b", []link{{&t, false}, {&s, false}}, "a", ""},
+		// recovered, then a new panic
+		{"{% defer func() { recover(); panic(t) }() %}a{% panic(s) %}b", []link{{&t, false}, {&s, true}}, "a", ""},
+		// everything recovered inside a macro, then an unrelated panic
+		{"{% macro M %}{% defer func() { recover() }() %}{% defer func() { panic(t) }() %}x{% panic(s) %}y{% end %}a{{ M() }}b{% panic(u) %}c", []link{{&u, false}}, "axb", ""},
+		// nested: the inner function recovers its own panic while the outer one is in flight
+		{"{% defer func() { defer func() { recover() }(); panic(t) }() %}a{% panic(s) %}b", []link{{&s, false}}, "a", ""},
+		// recover with nothing to recover, then a panic
+		{"{% defer mark(3) %}{% recover() %}a{% panic(s) %}b", []link{{&s, false}}, "a", "3"},
+	}
+	c := cases[vsym_choice(len(cases))]
+	tmpl, err := BuildTemplate(Files{"index.txt": []byte(c.src)}, "index.txt", &BuildOptions{Globals: decls})
+	vassert(err == nil, "builds")
+	var out vbuf
+	err, rec := vrunRecover(tmpl, &out)
+	vassert(rec == nil, "no-host-panic")
+	if c.chain == nil {
+		vassert(err == nil, "recovered-panic-run-returns-nil")
+	} else {
+		pe, ok := err.(*PanicError)
+		vassert(ok, "unrecovered-panic-is-a-PanicError")
+		for _, l := range c.chain {
+			vassert(pe != nil, "chain-has-every-active-panic")
+			m, isStr := pe.Message().(string)
+			vassert(isStr && m == *l.msg, "chain-message-in-order")
+			vassert(pe.Recovered() == l.recovered, "chain-recovered-flag")
+			pe = pe.Next()
+		}
+		vassert(pe == nil, "chain-has-no-aborted-panic")
+	}
+	vassert(string(out.b) == c.out, "output-stops-at-the-panic")
+	vassert(string(trace) == c.trace, "deferred-calls-run-once-in-order")
+	vreach("end")
+}
+
+func vh_c12_e2e_chain_q() { vc12_e2e_chain() }
